@@ -2105,4 +2105,98 @@ theorem preSync_off_le (bk : Backend) (F : Store β) (x : Id) (R : Int) (hx1 : x
       · exact ho
     · exact ho
 
+
+/-! ### hand-over on the leader's side -/
+
+theorem conts_code (o : Int) (cs : List (List β)) : ∀ m ∈ conts o cs, m.code = .cont := by
+  induction cs generalizing o with
+  | nil => intro m hm; cases hm
+  | cons c cs ih =>
+    intro m hm
+    simp only [conts, List.mem_cons] at hm
+    rcases hm with rfl | hm
+    · rfl
+    · exact ih _ m hm
+
+theorem sendData_no_handover (L : Leader β) (rid : Id) (off : Int) (ch : List Nat) :
+    ∀ m ∈ (L.sendData rid off ch).msgs, m.code ≠ .handover := by
+  have hc : ∀ (o : Int) (cs : List (List β)) (fault : Bool) (m : Msg β),
+      m ∈ conts o cs ++ (if fault then [ctl .fault] else []) → m.code ≠ .handover := by
+    intro o cs fault m hm
+    simp only [List.mem_append] at hm
+    rcases hm with hm | hm
+    · rw [conts_code o cs m hm]; decide
+    · cases fault <;> simp [ctl] at hm
+      subst hm; simp
+  intro m hm
+  unfold Leader.sendData at hm
+  split at hm
+  · simp [ctl] at hm; subst hm; simp
+  · split at hm
+    · split at hm
+      · simp [ctl] at hm; subst hm; simp
+      · split at hm
+        · simp only [List.mem_cons] at hm
+          rcases hm with rfl | hm
+          · simp
+          · rw [conts_code _ _ m hm]; decide
+        · simp only [List.mem_cons] at hm
+          rcases hm with rfl | hm
+          · simp
+          · exact hc _ _ _ m hm
+    · split at hm
+      · simp [ctl] at hm; subst hm; simp
+      · split at hm
+        · split at hm
+          · simp [ctl] at hm; subst hm; simp
+          · split at hm
+            · simp only [List.mem_cons] at hm
+              rcases hm with rfl | hm
+              · simp
+              · rw [conts_code _ _ m hm]; decide
+            · simp only [List.mem_cons] at hm
+              rcases hm with rfl | hm
+              · simp
+              · exact hc _ _ _ m hm
+        · simp [ctl] at hm; subst hm; simp
+
+/-- whenever the leader answers `HANDOVER`, `ServiceReplica` returns a role error, on which
+    `SyncerCmd.Sync` stops this input's syncer (so that the lease is resigned) -/
+theorem handover_stops_leader (v : View β) (rid : Id) (roff : Int) (ch : List Nat)
+    (h : ∃ m ∈ (v.handle rid roff ch).msgs, m.code = .handover) :
+    syncReact (v.handle rid roff ch).fin = .stopSyncer := by
+  obtain ⟨m, hm, hcode⟩ := h
+  unfold View.handle at hm ⊢
+  split
+  · rename_i h1; rw [if_pos h1] at hm; simp [ctl] at hm; subst hm; simp at hcode
+  · rename_i h1
+    rw [if_neg h1] at hm
+    split
+    · rename_i h2; rw [if_pos h2] at hm; cases hm
+    · rename_i h2
+      rw [if_neg h2] at hm
+      split
+      · rename_i hi; rw [hi] at hm; simp [ctl] at hm; subst hm; simp at hcode
+      · rename_i i0 tl hi
+        rw [hi] at hm
+        simp only at hm ⊢
+        have hpre : ∀ m' ∈ (if i0 ≠ v.l1.cur then [ctl .clear] else ([] : List (Msg β))), m'.code ≠ .handover := by
+          intro m' hm'
+          split at hm'
+          · simp [ctl] at hm'; subst hm'; simp
+          · cases hm'
+        simp only [List.mem_append] at hm
+        rcases hm with hm | hm
+        · exact absurd hcode (hpre m hm)
+        · by_cases h3 : (rid = "" || rid = "?") = true
+          · rw [if_pos h3] at hm; simp at hm; subst hm; simp at hcode
+          · rw [if_neg h3] at hm ⊢
+            by_cases h4 : v.l2.inputIds.head? ≠ some rid
+            · rw [if_pos h4] at hm; simp [ctl] at hm; subst hm; simp at hcode
+            · rw [if_neg h4] at hm ⊢
+              by_cases h5 : roff - latest v.l2.data > 0
+              · rw [if_pos h5]; rfl
+              · rw [if_neg h5] at hm
+                exact absurd hcode (sendData_no_handover _ _ _ _ m hm)
+
 end GunYu.Replica
